@@ -286,9 +286,10 @@ class Model:
                 # For delayed states we do not have any reliable shape
                 # information available due to it being an arbitrary
                 # expression, so we just always expand.
-                if (
-                    set(old_var.symbol._modelica_shape) != {(None,)}
-                    or old_var.symbol.name() in self.delay_states
+                if set(old_var.symbol._modelica_shape) != {(None,)} or (
+                    old_var.symbol.name() in self.delay_states
+                    # unless it is a scalar made by an earlier expansion pass
+                    and old_var.symbol._modelica_shape != ((None,),)
                 ):
                     expanded_symbols = []
 
